@@ -3,6 +3,7 @@ CONSTANTS
   Names = {"a", "b", "XLONG"}
   BaseLens = {0, 2}
   Align = {}
+  EndAlign = {}
   MaxOps = 5
   MaxFiles = 2
   Srcs = {"exact", "short", "long"}
